@@ -27,8 +27,8 @@ def tl_obl(H):
     return f
 
 
-def run_tl(R, cfg, T):
-    H = base.get(cfg, time_limit=T)
+def run_tl(R, cfg, T, over=None):
+    H = base.get(cfg, time_limit=T, **(over or {}))
     if H.T != T:
         R.structural(f"constructor honours time_limit={T}", False, {"config": cfg, "env.time_limit": H.T, "requested": T})
     if H.BMC:
@@ -70,6 +70,10 @@ def jobs(tier, seed):
             for cfg in cfgs:
                 for T in LIMITS[tier]:
                     js.append((f"{cfg}/T={T}", "checks.C11", "run_tl", {"cfg": cfg, "T": T}))
+            for cfg, T, over in getattr(cls, "C11_EXTRA", {}).get(tier, []):
+                # harness-declared extra configurations in which the limit is decoupled from another size that happens to coincide
+                # with it in the default construction (MMST: the generator's walk-buffer length max_step)
+                js.append((f"{cfg}/T={T}/{','.join(f'{k}={v}' for k, v in over.items())}", "checks.C11", "run_tl", {"cfg": cfg, "T": T, "over": over}))
         elif cls.measure is not base.Harness.measure:
             for cfg in cfgs:
                 js.append((f"{cfg}/horizon", "checks.C11", "run_measure", {"cfg": cfg}))
